@@ -755,6 +755,7 @@ class Processor:
         """
         if deleted is None:
             deleted = []
+            self._refuse_root_deletion(delete_nodes)
 
         # pylint: disable=locally-disabled,too-many-nested-blocks
         for delete_nc in reversed(delete_nodes):
@@ -828,6 +829,36 @@ class Processor:
                 # Edge-case:  Attempt to delete from a document which is
                 # entirely one Scalar value OR user is deleting the entire
                 # document.
+                raise NoDocumentYAMLPathException(
+                    "Refusing to delete the entire document!  Ensure the"
+                    " source document is YAML, JSON, or compatible and the"
+                    " target nodes do not include the document root.",
+                    str(delete_nc.path)
+                )
+
+    def _refuse_root_deletion(self, delete_nodes: List[NodeCoords]) -> None:
+        """
+        Refuse to delete anything when the document root is to be deleted.
+
+        Parameters:
+        1. delete_nodes (List[NodeCoords]) The nodes to delete.
+
+        Raises:
+        - `YAMLPathException` when the operation would destroy the entire
+           document
+        """
+        for delete_nc in delete_nodes:
+            node = delete_nc.node
+            if (isinstance(node, list)
+                and len(node) > 0
+                and isinstance(node[0], NodeCoords)
+            ):
+                self._refuse_root_deletion(node)
+            elif isinstance(node, NodeCoords):
+                self._refuse_root_deletion([node])
+            elif not isinstance(
+                delete_nc.parent, (dict, list, set, CommentedSet)
+            ):
                 raise NoDocumentYAMLPathException(
                     "Refusing to delete the entire document!  Ensure the"
                     " source document is YAML, JSON, or compatible and the"
